@@ -463,7 +463,49 @@ func (f *recordsFam) Gen(r *hx.Run) {
 	per := r.Pick(40, 1000)
 	for ti := range recTypes {
 		rt := &recTypes[ti]
+		// a short valid encoding for the declared-count probes, which come first: once a decoder has panicked on a declared count
+		// no random corruption is fed to it any more (an unpatched preallocating decoder may request hundreds of gigabytes)
 		var firstEnc []byte
+		for k := 0; k < 6; k++ {
+			obj := rt.mk()
+			fillVal(r, reflect.ValueOf(obj).Elem(), 0)
+			if rt.fix != nil {
+				rt.fix(r, obj)
+			}
+			if enc := recSer(obj); firstEnc == nil || (len(enc) < len(firstEnc) && len(enc) > 8) {
+				firstEnc = enc
+			}
+		}
+		// every offset of a (short) valid encoding replaced by a huge declared count, the rest of the body kept
+		huge := [][]byte{varuintBytes(^uint64(0), 3), varuintBytes(1<<63, 3), varuintBytes(1<<63-1, 3), varuintBytes(1<<48, 3), bytes.Repeat([]byte{0xff}, 8),
+			{0, 0, 0, 0, 0, 0, 0, 0x80}}
+		moderate := [][]byte{varuintBytes(0xfd, 0), varuintBytes(0xffff, 0), varuintBytes(1<<20, 0), {0, 0, 0x10, 0, 0, 0, 0, 0}}
+		newCase(rt.name + "-counts")
+		limit := len(firstEnc)
+		if limit > 120 {
+			limit = 120
+		}
+		for _, c := range append(huge, moderate...) {
+			for i := 0; i < limit; i++ {
+				width := 1
+				if len(c) == 8 {
+					width = 8
+				}
+				if i+width > len(firstEnc) {
+					continue
+				}
+				m := append(append(append([]byte{}, firstEnc[:i]...), c...), firstEnc[i+width:]...)
+				out := r.Do(fmt.Sprintf("dec %s %s keys=-", rt.name, hx.Hex(m)))
+				r.Hist("counts." + outClass(out))
+				if out == "panic" {
+					r.Nontrivial(fmt.Sprintf("%s-count-panic/%d", rt.name, i))
+				}
+			}
+			if f.sawPanic[rt.name] {
+				r.Hist("skipped.more-huge-counts-after-panic")
+				break
+			}
+		}
 		for i := 0; i < per; i++ {
 			newCase(rt.name)
 			obj := rt.mk()
@@ -472,9 +514,6 @@ func (f *recordsFam) Gen(r *hx.Run) {
 				rt.fix(r, obj)
 			}
 			enc := recSer(obj)
-			if firstEnc == nil || (len(enc) < len(firstEnc) && len(enc) > 8) {
-				firstEnc = enc
-			}
 			v := render(obj)
 			out := r.Do(fmt.Sprintf("rt %s %s %s keys=-", rt.name, v, hx.Hex(enc)))
 			if i == 0 {
@@ -482,7 +521,7 @@ func (f *recordsFam) Gen(r *hx.Run) {
 			}
 			r.Nontrivial(fmt.Sprintf("%s/%s/%d", rt.name, outClass(out), lenBucket(len(enc))))
 			r.Do(fmt.Sprintf("dec %s %s keys=-", rt.name, hx.Hex(append(append([]byte{}, enc...), r.Rng.Bytes(r.Rng.Intn(4))...))))
-			for j := 0; j < r.Pick(4, 10); j++ {
+			for j := 0; j < r.Pick(4, 10) && !f.sawPanic[rt.name]; j++ {
 				m := mutate(r, enc)
 				out := r.Do(fmt.Sprintf("dec %s %s keys=-", rt.name, hx.Hex(m)))
 				r.Hist("malformed." + outClass(out))
@@ -582,36 +621,6 @@ func (f *recordsFam) Gen(r *hx.Run) {
 				}
 				out := r.Do(fmt.Sprintf("dec %s %s keys=-", rt.name, hx.Hex(rev)))
 				r.Nontrivial(fmt.Sprintf("%s-revorder/%s/%d", rt.name, outClass(out), len(keys)))
-			}
-		}
-		// every offset of a (short) valid encoding replaced by a huge declared count, the rest of the body kept
-		huge := [][]byte{varuintBytes(^uint64(0), 3), varuintBytes(1<<63, 3), varuintBytes(1<<63-1, 3), varuintBytes(1<<48, 3), bytes.Repeat([]byte{0xff}, 8),
-			{0, 0, 0, 0, 0, 0, 0, 0x80}}
-		moderate := [][]byte{varuintBytes(0xfd, 0), varuintBytes(0xffff, 0), varuintBytes(1<<20, 0), {0, 0, 0x10, 0, 0, 0, 0, 0}}
-		newCase(rt.name + "-counts")
-		limit := len(firstEnc)
-		if limit > 120 {
-			limit = 120
-		}
-		for _, c := range append(huge, moderate...) {
-			for i := 0; i < limit; i++ {
-				width := 1
-				if len(c) == 8 {
-					width = 8
-				}
-				if i+width > len(firstEnc) {
-					continue
-				}
-				m := append(append(append([]byte{}, firstEnc[:i]...), c...), firstEnc[i+width:]...)
-				out := r.Do(fmt.Sprintf("dec %s %s keys=-", rt.name, hx.Hex(m)))
-				r.Hist("counts." + outClass(out))
-				if out == "panic" {
-					r.Nontrivial(fmt.Sprintf("%s-count-panic/%d", rt.name, i))
-				}
-			}
-			if f.sawPanic[rt.name] {
-				r.Hist("skipped.more-huge-counts-after-panic")
-				break
 			}
 		}
 		// a declared count of 2^22 at every offset, allocation measured: reserving memory for 4M elements from a dozen bytes
